@@ -266,7 +266,9 @@ func init() { runtime.GOMAXPROCS(1) }
 // larger one), then every case behind its prelude.  A change that does not depend on earlier
 // calls fails in the first block; one that does fails in the line whose prelude causes it, not
 // in some later line without a prelude (whose failing input would not fail when replayed alone).
-// Early also because the heap is small then: every P line starts with two garbage collections.
+// Early also because the heap is small then: every P line starts with two garbage collections
+// (their cost grows with the heap: the thorough tier has 4 times the P lines of the quick tier,
+// not 20 times).
 type heldLine struct {
 	prelude, line string
 	ptags, tags   []string
@@ -334,7 +336,7 @@ func genPreludes(g *tr.G) {
 			emit("L e "+tr.Ints(plain(a))+" "+tr.Ints(plain(b)), false, len(a), len(b), "prelude-lcs")
 		}
 	}
-	for i := 0; i < g.Scale(800, 16000); i++ {
+	for i := 0; i < g.Scale(800, 3000); i++ {
 		k := g.R.Range(2, 5)
 		n := g.R.Intn(41)
 		base := make([]int, n)
@@ -354,7 +356,7 @@ func genPreludes(g *tr.G) {
 		}
 	}
 	// two views of one array
-	for i := 0; i < g.Scale(300, 6000); i++ {
+	for i := 0; i < g.Scale(300, 1000); i++ {
 		n := g.R.Range(1, 30)
 		arr := make([]int, n)
 		for j := range arr {
@@ -371,7 +373,7 @@ func genPreludes(g *tr.G) {
 			false, b-a, d-c, "prelude-views")
 	}
 	// strings
-	for i := 0; i < g.Scale(200, 4000); i++ {
+	for i := 0; i < g.Scale(200, 600); i++ {
 		pick := func() []int {
 			out := make([]int, g.R.Range(0, 10))
 			for j := range out {
@@ -389,7 +391,7 @@ func genPreludes(g *tr.G) {
 		emit("I k "+tr.Ints(vs), true, len(vs), 0, "prelude-lis")
 		emit("N k "+tr.Ints(vs), true, len(vs), 0, "prelude-lis")
 	})
-	for i := 0; i < g.Scale(800, 16000); i++ {
+	for i := 0; i < g.Scale(800, 3000); i++ {
 		ks := randKeys(g.R, 60)
 		mode := tr.Pick(g.R, []string{"k", "k", "r", "d", "n", "t", "q", "x", "c", "m"})
 		vs := withPayload(ks, 0)
@@ -403,7 +405,7 @@ func genPreludes(g *tr.G) {
 			emit("N d "+tr.Ints(vs), true, len(vs), 0, "prelude-lis", "prelude-sweep")
 		}
 	}
-	for i := 0; i < g.Scale(100, 2000); i++ {
+	for i := 0; i < g.Scale(100, 300); i++ {
 		mode := "gj"[i%2 : i%2+1]
 		ks := make([]int, g.R.Range(1, 12))
 		for j := range ks {
@@ -888,12 +890,13 @@ func emitSweep(g *tr.G, fn string, L int, shape byte, reversed bool) {
 func genSweeps(g *tr.G) {
 	// The extracted models walk lists: a line of n elements costs about n^2 * 60 ns to replay, the
 	// whole sweep of one shape over L = 1..600 about 18 s (two thirds of it above L = 400).
-	// Thorough tier: every L to 600 in every shape.  Quick tier (about 10 s of replay):
+	// Thorough tier: every L to 600 in every shape.  Quick tier (about 12 s of replay):
 	//   L <= 128        every natural-order shape, the new-minimum shapes, one reversed and one
 	//                   staircase shape (rotating with L and the seed);
 	//   128 < L <= 256  LIS ascending, one of LNDS ascending / plateau (parity of L + seed), the
 	//                   new-minimum shapes;
-	//   256 < L <= 600  every eighth L (the residue rotates with the seed), one natural shape each;
+	//   256 < L <= 600  every fourth L (the residue rotates with the seed), one natural shape each
+	//                   (every second L: 5 s more, every L: 14 s more);
 	//   everything at 2^k-1, 2^k, 2^k+1; one more shape at the multiples of 64; LIS ascending and
 	//   LNDS plateau at the multiples of 100.
 	const top = 600
@@ -905,14 +908,14 @@ func genSweeps(g *tr.G) {
 	for L := 1; L <= top; L++ {
 		all := g.Thorough() || pow2(L)
 		low, mid := L <= 128, L > 128 && L <= 256
-		pick := !low && !mid && (L+seed)%8 == 0 // the one shape of this L above 256: (L/8+rot)%3
-		if all || low || mid || pick && (L/8+rot)%3 == 0 || L%100 == 0 || L%64 == 0 && (L/64+rot)%3 == 0 {
+		pick := !low && !mid && (L+seed)%4 == 0 // the one shape of this L above 256: (L/4+rot)%3
+		if all || low || mid || pick && (L/4+rot)%3 == 0 || L%100 == 0 || L%64 == 0 && (L/64+rot)%3 == 0 {
 			emitSweep(g, "I", L, 'a', false)
 		}
-		if all || low || mid && (L+seed)%2 == 0 || pick && (L/8+rot)%3 == 1 || L%64 == 0 && (L/64+rot)%3 == 1 {
+		if all || low || mid && (L+seed)%2 == 0 || pick && (L/4+rot)%3 == 1 || L%64 == 0 && (L/64+rot)%3 == 1 {
 			emitSweep(g, "N", L, 'a', false)
 		}
-		if all || low || mid && (L+seed)%2 == 1 || pick && (L/8+rot)%3 == 2 || L%100 == 0 || L%64 == 0 && (L/64+rot)%3 == 2 {
+		if all || low || mid && (L+seed)%2 == 1 || pick && (L/4+rot)%3 == 2 || L%100 == 0 || L%64 == 0 && (L/64+rot)%3 == 2 {
 			emitSweep(g, "N", L, 'p', false)
 		}
 		if all || low || mid {
